@@ -7,6 +7,8 @@ from . import state as ST
 
 def _ite_any(c, a, b):
     """ite that also merges abstract memory tokens (z3 terms of an uninterpreted sort)"""
+    if hasattr(a, 'mem_ite'):
+        return a.mem_ite(c, b)
     if hasattr(a, 'sort') and hasattr(b, 'sort') and not isinstance(a, (int, bool)):
         import z3
         from pyvc import sym
@@ -146,6 +148,22 @@ class Cpu:
             self.branch_to(addr & 0xFFFFFFFC)
         else:
             self.branch_to(addr & 0xFFFFFFFE)
+
+    def branch_write_pc_dynamic(self, addr):
+        """BranchWritePC() for the instruction set selected by the *current* CPSR (after an exception return wrote it)"""
+        s = ST.iset(self.cpsr)
+        self.UNPREDICTABLE(land(s == ST.ISET_ARM, self.arch() < 6, bits(addr, 1, 0) != 0))
+        self.UNPREDICTABLE(s == ST.ISET_JAZELLE)           # JazelleAcceptsExecution() is FALSE (trivial Jazelle)
+        self.branch_to(ite(s == ST.ISET_ARM, addr & 0xFFFFFFFC, addr & 0xFFFFFFFE))
+
+    def exception_return(self, new_cpsr, new_pc):
+        """CPSRWriteByInstr(value, '1111', TRUE); Hyp/ThumbEE check; BranchWritePC(new_pc)"""
+        from . import psr as PSR
+        _, unp, _ = PSR.cpsr_write_by_instr(self.st, new_cpsr, 0b1111, True)
+        self.UNPREDICTABLE(unp)
+        c = self.cpsr
+        self.UNPREDICTABLE(land(bits(c, 4, 0) == ST.HYP, bit(c, 24) == 1, bit(c, 5) == 1))
+        self.branch_write_pc_dynamic(new_pc)
 
     def select_iset(self, thumb):
         self.cpsr = ST.cpsr_with(self.cpsr, j=0, t=1 if thumb else 0)
